@@ -199,7 +199,9 @@ fn parse_string(input: &str, span: Span) -> Result<String, Error> {
             b'\'' => '\'',
             b'"' => '"',
             b'\r' | b'\n' => {
-                rem = rem.trim_start();
+                // a line continuation only skips the ascii whitespace that rustc skips,
+                // other whitespace characters (eg: U+00A0) are part of the string.
+                rem = rem.trim_start_matches(|c| matches!(c, ' ' | '\t' | '\n' | '\r'));
                 continue;
             }
             _ => return Err(make_err(rem, "invalid escape")),
